@@ -86,6 +86,7 @@ fn synthetic(mode: &str) -> Option<SyntheticData> {
             (vec!["m"], Identifier::from("m_sd")),
             (vec!["p"], Identifier::from("p_sd")),
             (vec!["q"], Identifier::from("q_sd")),
+            (vec!["nu"], Identifier::from("nu_sd")),
             (vec!["ref"], Identifier::from("ref_sd")),
         ]))),
         _ => Some(SyntheticData::new(Hierarchy::from([(vec!["users"], Identifier::from("users_sd"))]))),
